@@ -83,7 +83,8 @@ Definition reader_ok (v : view) (tr : list op) (t1 t2 : nat) : bool :=
   forallb (fun ns => forallb (indexedb (view_of v (firstn t2 tr))) ns) (snaps_of (firstn t1 tr)).
 
 (* ---- observed traces ---- *)
-Inductive rop := RListSnap | RListIdx | RLoadSnap (n : nat) | RLoadIdx (n : nat) | ROther.
+Inductive rop := RListSnap | RListIdx | RLoadSnap (n : nat) | RLoadIdx (n : nat) | RUse | ROther.
+(* RUse: a pack file is read (trees / data of some snapshot) *)
 
 (* listed: snapshot ids listed so far (ids are given by the harness as the position in the listing order:
    an id >= nlisted was not in a listing); after the index listing no new snapshot may be used *)
@@ -94,7 +95,20 @@ Fixpoint reader_orderb (seen_snaplist seen_idxlist : bool) (tr : list rop) : boo
   | RListIdx :: r => if seen_snaplist then reader_orderb seen_snaplist true r else false
   | RLoadIdx _ :: r => if seen_snaplist then reader_orderb seen_snaplist seen_idxlist r else false
   | RLoadSnap _ :: r => if seen_snaplist then reader_orderb seen_snaplist seen_idxlist r else false
+  | RUse :: r => reader_orderb seen_snaplist seen_idxlist r
   | ROther :: r => reader_orderb seen_snaplist seen_idxlist r
+  end.
+
+(* long-running readers (mount) list snapshots again and again and reload the index after each listing
+   that brought something new: whenever repository data is used, the index must have been listed after the
+   most recent snapshot listing (fresh) *)
+Fixpoint reader_freshb (fresh : bool) (tr : list rop) : bool :=
+  match tr with
+  | [] => true
+  | RListSnap :: r => reader_freshb false r
+  | RListIdx :: r => reader_freshb true r
+  | RUse :: r => if fresh then reader_freshb fresh r else false
+  | _ :: r => reader_freshb fresh r
   end.
 
 Inductive wop := WPack | WIdx | WSnap | WOther.
@@ -113,12 +127,14 @@ Fixpoint writer_orderb (dirty : bool) (tr : list wop) : bool :=
 
 Inductive case :=
 | CReader (tr : list rop) (failed : bool)
+| CMount (tr : list rop) (failed : bool)     (* mount: index, root listing, every snapshot directory read *)
 | CWriter (tr : list wop) (reader_failures : nat)
 | CWriterSem (v0 : view) (tr : list op).   (* decoded uploads of one backup: packs, index contents, snapshot needs *)
 
 Definition check_C14 (c : case) : bool :=
   match c with
   | CReader tr failed => andb (reader_orderb false false tr) (negb failed)
+  | CMount tr failed => andb (reader_freshb true tr) (negb failed)
   | CWriter tr n => andb (writer_orderb false tr) (Nat.eqb n 0)
   | CWriterSem v0 tr => wfb v0 tr
   end.
@@ -126,6 +142,7 @@ Definition check_C14 (c : case) : bool :=
 Definition check_case (c : case) : nat :=
   match c with
   | CReader tr failed => if negb (reader_orderb false false tr) then 2 else if failed then 4 else 0
+  | CMount tr failed => if negb (reader_freshb true tr) then 2 else if failed then 4 else 0
   | CWriter tr n => if negb (writer_orderb false tr) then 3 else if Nat.eqb n 0 then 0 else 4
   | CWriterSem v0 tr => if wfb v0 tr then 0 else 3
   end.
